@@ -1103,9 +1103,9 @@ func (g *Gen) bigMergeCase() {
 			}
 			toks = append(toks, TokSpec{Term: []byte("zzz"), Freq: 1})
 			doc.Fields = append(doc.Fields, FieldSpec{Kind: "fld", Name: "body", Typ: 't', Len: 2 + d%4, DV: k == 0, Toks: toks})
-			if d == 400 || d == 470 {
+			if d == nd-1 || d == nd-3 {
 				// the next field's FIRST term equals this field's LAST term, with few hits
-				doc.Fields = append(doc.Fields, FieldSpec{Kind: "fld", Name: "bodz", Typ: 't', Len: 5, Toks: []TokSpec{{Term: []byte("zzz"), Freq: 2 + d/470}}})
+				doc.Fields = append(doc.Fields, FieldSpec{Kind: "fld", Name: "bodz", Typ: 't', Len: 5, Toks: []TokSpec{{Term: []byte("zzz"), Freq: 2 + d%2}}})
 			}
 			if d%30 == k {
 				// the empty term opens the next field's dictionary
